@@ -53,6 +53,9 @@ MUTANTS = [
     ("vt.contracts.einsum_eq", "get_einsum_eq", "cotengra/core.py", "            for i, ix in enumerate(unique(itertools.chain(l_inds, r_inds)))\n        }", "            for i, ix in enumerate(unique(itertools.chain(l_inds, r_inds)))\n            if not ix.isascii()\n        }"),
     ("vt.contracts.einsum_eq", "get_einsum_eq", "cotengra/core.py", "enumerate(unique(itertools.chain(l_inds, r_inds)))", "enumerate(unique(l_inds))"),
     ("vt.contracts.einsum_eq", "get_einsum_eq", "cotengra/core.py", "ord(ix): get_symbol(i)", "ord(ix): get_symbol(i % 52)"),
+    ("vt.contracts.core_legs,vt.contracts.legs_rules", "get_legs", "cotengra/core.py", "            if ix_count < self.appearances[ix]\n        }", "            if ix_count <= self.appearances[ix]\n        }"),
+    ("vt.contracts.core_legs,vt.contracts.legs_rules", "get_legs", "cotengra/core.py", "return {ix: 0 for ix in self.output if ix not in self.sliced_inds}", "return {ix: 0 for ix in self.output}"),
+    ("vt.contracts.core_legs,vt.contracts.legs_rules", "get_flops", "cotengra/core.py", "        if len(node) == 1:\n            return 0\n        involved = self.get_involved(node)", "        if len(node) == 1:\n            return 1\n        involved = self.get_involved(node)"),
     ("vt.contracts.slicer_costs,vt.contracts.utils_maxcounter", "remove", "cotengra/slicer.py", "            cost._flops += new_flops - old_flops", "            cost._flops += new_flops"),
     ("vt.contracts.slicer_costs,vt.contracts.utils_maxcounter", "remove", "cotengra/slicer.py", "                cost._sizes.add(new_size)\n", "                cost._sizes.add(old_size)\n"),
     ("vt.contracts.slicer_costs,vt.contracts.utils_maxcounter", "__init__", "cotengra/slicer.py", "self._flops += c[IDX_FLOPS]", "self._flops += c[IDX_SIZE]"),
